@@ -3505,6 +3505,8 @@ def squeeze(array: Array, axis: Collection[int] | None = None) -> Array:
     if axis is None:
         axis = one_d_axes
     else:
+        if len(frozenset(axis)) != len(axis):
+            raise ValueError("duplicate value in 'axis'")
         axis = frozenset(axis)
         if not (axis <= one_d_axes):
             raise ValueError("cannot squeeze an axis which is not 1-long")
